@@ -16,6 +16,7 @@ from . import core
 
 TR = []          # the trace of the request being executed
 SIDE = {}        # side observations of the request being executed (not part of the trace)
+LISTEN = {}      # what the transport-level listeners of the request being executed do to ctx.out_string
 
 FC_OF_CODE = {'Client.RequestTooLong': 'tooLong', 'Client.ResourceNotFound': 'notFound',
               'Client.RequestNotAllowed': 'notAllowed', 'Client.InvalidCredentialsError': 'invalidCreds'}
@@ -124,6 +125,23 @@ def impl_env():
             if SIDE['sized']:
                 SIDE['chunks'] = [len(c) for c in os_]
         w.event_manager.add_listener('wsgi_return', on_ret)
+
+        # transport-level listeners that legitimately rewrite the outgoing stream (compression, wrapping, trailers);
+        # registered after the observers above, driven per request by LISTEN
+        def rewrite_ret(ctx):
+            r = LISTEN.get('ret')
+            if r is not None:
+                chunks = [b'z' * k for k in r['sizes']]
+                ctx.out_string = (c for c in chunks) if r['lazy'] == 'gen' else tuple(chunks) if r['lazy'] == 'tuple' else chunks
+                SIDE['ret_listener_ran'] = True
+        w.event_manager.add_listener('wsgi_return', rewrite_ret)
+
+        def rewrite_exc(ctx):
+            r = LISTEN.get('exc')
+            if r is not None:
+                ctx.out_string = [b'z' * k for k in r]
+                SIDE['exc_listener_ran'] = True
+        w.event_manager.add_listener('wsgi_exception', rewrite_exc)
         if wsdl == 'unavailable':
             w.doc.wsdl11 = None
         elif wsdl == 'buildError':
@@ -236,6 +254,11 @@ def execute(case, validate=False):
     env = environ_of(case, doc)
     del TR[:]
     SIDE.clear()
+    LISTEN.clear()
+    if case.get('on_return') is not None:
+        LISTEN['ret'] = case['on_return']
+    if case.get('on_exception') is not None:
+        LISTEN['exc'] = case['on_exception']
     SIDE['doc_len'] = len(doc)
     calls = []
 
@@ -360,6 +383,10 @@ def model_query(case, side, ref):
                         req['gen'] = 'empty'
                     else:
                         req['gen'] = 'yields'
+    if case.get('on_return') is not None:
+        req['onReturn'] = {'chunks': case['on_return']['sizes'], 'sized': case['on_return']['lazy'] != 'gen'}
+    if case.get('on_exception') is not None:
+        req['onException'] = case['on_exception']
     return {'op': 'handle', 'cfg': cfg, 'req': req, 'stream': case.get('plan') or [], 'abort': case.get('abort')}
 
 
@@ -408,6 +435,10 @@ def oracle(case, tr, side, calls):
     out = []
     kind = case['kind']
     site = 'wsdl' if kind == 'wsdl' and case.get('wsdl') == 'ok' else ('wsdl-error' if kind == 'wsdl' else 'rpc')
+    if side.get('ret_listener_ran'):
+        site = 'rpc-return-listener'
+    elif side.get('exc_listener_ran'):
+        site = 'rpc-exception-listener'
     crashes = [e for e in tr if e[0] == 'crash']
     srs = [i for i, e in enumerate(tr) if e[0] == 'sr']
     chunks = [i for i, e in enumerate(tr) if e[0] == 'chunk']
@@ -460,7 +491,7 @@ def oracle(case, tr, side, calls):
             f = tr[srs[0]][2] if srs else None
             user = any(e[0] == 'user' for e in tr)
             bf = side.get('body_fault')
-            if f != 'tooLong' or user or (case.get('abort') is None and bf != 'tooLong'):
+            if f != 'tooLong' or user or (case.get('abort') is None and bf != 'tooLong' and not side.get('exc_listener_ran')):
                 out.append(('toolong-not-refused:' + which,
                             'body of %s bytes (%s) with max_content_length=%d answered with fault=%s body-fault=%s user-code=%s'
                             % (d if which == 'declared' else real, which, cfg['max'], f, bf, user)))
@@ -568,13 +599,25 @@ def measure_facts():
     f['preRejectStatus'] = next((e[1] for e in tr if e[0] == 'sr'), 0)
     tr = run(mkcase('http', 'echo', {'s': 'hi'}))
     f['okStatus'] = next((e[1] for e in tr if e[0] == 'sr'), 0)
+    # where the transport-level events fire relative to the join / len() / Content-Length computation
+    def cl_matches(c):
+        t = run(c)
+        sr = [e for e in t if e[0] == 'sr']
+        return bool(sr) and (sr[0][3] is None or sr[0][3] == sum(e[1] for e in t if e[0] == 'chunk'))
+    ws = [mkcase('soap', 'echo', {'s': 'hi'}, cfg=dict(BASE_CFG, chunked=ch), on_return={'sizes': [3], 'lazy': 'list'}) for ch in (True, False)]
+    f['returnEventBeforeLength'] = all(cl_matches(c) for c in ws)
+    WITNESS['returnEventBeforeLength'] = next((c for c in ws if not cl_matches(c)), ws[0])
+    c = mkcase('json', 'val', {'n': -3}, on_exception=[4, 3])
+    f['errorEventBeforeLength'] = cl_matches(c)
+    WITNESS['errorEventBeforeLength'] = c
     tr = run(mkcase('json', 'gen', {'n': 2, 'mode': 'late'}))
     f['lateErrorKeepsOkStatus'] = next((e[1] for e in tr if e[0] == 'sr'), 0) == f['okStatus']
     return f
 
 
 GOOD = {'closeTiming': 'afterBody', 'wsdlCloseTiming': 'afterBody', 'joinKind': 'bytes', 'clParse': 'fault',
-        'genGuard': True, 'soapEmptyBodyFault': True, 'wsdlErrBytes': True, 'wsdlErrClosed': True}
+        'genGuard': True, 'soapEmptyBodyFault': True, 'wsdlErrBytes': True, 'wsdlErrClosed': True,
+        'returnEventBeforeLength': True, 'errorEventBeforeLength': True}
 SWITCH_WHAT = {
     'closeTiming': 'handle_rpc/handle_error close the context (method_context_closed, wsgi_close) while building the iterable, before the first body chunk',
     'wsdlCloseTiming': 'handle_wsdl_request closes the context before returning the document',
@@ -584,6 +627,10 @@ SWITCH_WHAT = {
     'soapEmptyBodyFault': 'an empty request body makes Soap11 raise StopIteration, which escapes the callable',
     'wsdlErrBytes': 'the 404/500 answers to ?wsdl carry str chunks',
     'wsdlErrClosed': 'the 404/500 answers to ?wsdl never close their context',
+    'returnEventBeforeLength': "handle_rpc fires 'wsgi_return' after it joined / measured ctx.out_string: a listener that rewrites "
+                               'the outgoing stream (gzip, wrap) leaves a Content-Length that is not the number of body bytes',
+    'errorEventBeforeLength': "handle_error fires 'wsgi_exception' after it computed Content-Length: a listener that rewrites the "
+                              'fault document leaves a Content-Length that is not the number of body bytes',
 }
 
 
@@ -615,12 +662,15 @@ def facts13 : Facts13 where
   wsdlUnavailableStatus := %d
   wsdlErrorStatus := %d
   okStatus := %d
+  returnEventBeforeLength := %s
+  errorEventBeforeLength := %s
   lateErrorKeepsOkStatus := %s
 
 end SpyneModel.Generated
 ''' % (f['closeTiming'], f['wsdlCloseTiming'], f['joinKind'], f['clParse'], b(f['genGuard']), b(f['soapEmptyBodyFault']),
        f['soapBadLengthClass'], f['soapEmptyBodyClass'], b(f['wsdlErrBytes']), b(f['wsdlErrClosed']), tab(f['statusPlain']), tab(f['statusSoap']), f['preRejectStatus'],
-       f['wsdlOkStatus'], f['wsdlUnavailableStatus'], f['wsdlErrorStatus'], f['okStatus'], b(f['lateErrorKeepsOkStatus']))
+       f['wsdlOkStatus'], f['wsdlUnavailableStatus'], f['wsdlErrorStatus'], f['okStatus'], b(f['returnEventBeforeLength']), b(f['errorEventBeforeLength']),
+       b(f['lateErrorKeepsOkStatus']))
 
 
 # ------------------------------------------------------------------------------------ generators
@@ -694,6 +744,18 @@ def gen_cases(ctx):
                     add(mkcase(proto, m, a, cfg=dict(BASE_CFG, chunked=chunked), abort=abort), 'outcomes')
                     if abort is None:
                         add(mkcase(proto, m, a, cfg=dict(BASE_CFG, chunked=chunked), abort=None, noclose=True), 'outcomes')
+    # -- transport-level listeners that replace the outgoing stream: every outcome x protocol x chunked x rewrite shape
+    RET = [{'sizes': [3], 'lazy': 'list'}, {'sizes': [2, 0, 5], 'lazy': 'gen'}, {'sizes': [], 'lazy': 'list'},
+           {'sizes': [400], 'lazy': 'tuple'}, {'sizes': [1, 1], 'lazy': 'list'}]
+    EXC = [[4, 3], [], [500], [0, 1]]
+    for proto in ('soap', 'json', 'http'):
+        for chunked in (True, False):
+            for m, a in CALLS:
+                if proto == 'http' and m == '#junk':
+                    continue
+                for i, (r, e) in enumerate([(r, e) for r in RET for e in EXC][::3]):
+                    add(mkcase(proto, m, a, cfg=dict(BASE_CFG, chunked=chunked), abort=[None, 1, None, 0][i % 4],
+                               on_return=r, on_exception=e if i % 2 == 0 else None), 'listeners')
     # -- Soap11 refusing verb / content type before reading
     for chunked in (True, False):
         add(dict(mkcase('soap', 'echo', {'s': 'hi'}, cfg=dict(BASE_CFG, chunked=chunked)), verb='GET'), 'prereject')
@@ -759,6 +821,11 @@ def gen_cases(ctx):
             c['verb'] = rng.choice(['GET', 'PUT'])
         if c['abort'] is None and rng.random() < 0.3:
             c['noclose'] = True
+        if rng.random() < 0.25:
+            k = rng.randrange(0, 4)
+            c['on_return'] = {'sizes': [rng.choice([0, 1, 5, 300]) for _ in range(k)], 'lazy': rng.choice(['list', 'gen', 'tuple'])}
+        if rng.random() < 0.25:
+            c['on_exception'] = [rng.choice([0, 2, 9, 300]) for _ in range(rng.randrange(0, 3))]
         add(c, 'random')
     return cases
 
@@ -799,6 +866,10 @@ def run(ctx):
         ctx.cov['traces_validated_against_impl'] += 1
         ctx.hit('tag:' + case['tag'])
         ctx.hit('proto:' + case['proto'])
+        if side.get('ret_listener_ran'):
+            ctx.hit('listener:wsgi_return-rewrites')
+        if side.get('exc_listener_ran'):
+            ctx.hit('listener:wsgi_exception-rewrites')
         ctx.hit('abort:' + (('none-noclose' if case.get('noclose') else 'none') if case.get('abort') is None else str(min(case['abort'], 3))))
         for e in tr:
             if e[0] == 'sr':
@@ -852,7 +923,8 @@ def run(ctx):
     ctx.cov['facts'] = {k: (v if not isinstance(v, dict) else v) for k, v in f.items()}
     ctx.cov['rule'] = ('case = (protocol soap/json/httprpc, chunked, max_content_length, block_length, request outcome class '
                        '[success plain/generator/raw out_string lazy or sized, each fault class, validation error, unknown '
-                       'method, malformed, serialisation failure, ?wsdl ok/404/500], CONTENT_LENGTH text, input-stream plan '
+                       'method, malformed, serialisation failure, ?wsdl ok/404/500], wsgi_return / wsgi_exception listeners that replace '
+                       'ctx.out_string by a stream of another size / chunking / sized-ness, CONTENT_LENGTH text, input-stream plan '
                        '[file-like, all-at-once, trickle, premature EOF, random short reads], abort point). Enumerated: every '
                        'outcome x protocol x chunked x abort 0..n; the CONTENT_LENGTH x real-length x block x max boundary grid; '
                        'then seeded random. distinct = distinct canonical case; non-trivial = trace has at least 3 events')
